@@ -102,6 +102,8 @@ def evaluate(pid, res, data, tag):
         if any(e[0] == 0 and e[4] != 1 for e in c['trace']):
             res.violations.append(dict(signature='C12/other-message', what='an attempt was handed a different message object', case=describe(c)))
             continue
+        if c['mode'] == 'router' and c.get('settle', -1) != (1 if c['err'] == 0 else 2):
+            res.mismatches.append(dict(kind='C12 in a Router: message %s although Retry returned %s' % (['left unsettled', 'acked', 'nacked'][c['settle']], 'nil' if c['err'] == 0 else 'an error'), case=describe(c)))
         if any(e[0] == 1 and e[4] != 1 for e in c['trace']):
             res.mismatches.append(dict(kind='C12 Logger.Error was not given the error of the attempt that just failed', case=describe(c)))
         good.append(c)
@@ -132,10 +134,10 @@ def run(ctx):
             by = collections.OrderedDict()
             for c in good:
                 if sum(1 for e in c['trace'] if e[0] == 0) > 2: by.setdefault(c['family'], c)
-            for fam in ('concurrent', 'cancel-in-attempt/long-wait', 'max-elapsed/slow-handler', 'sequential'):
+            for fam in ('concurrent', 'cancel-in-attempt/long-wait', 'max-elapsed/slow-handler', 'router'):
                 if fam in by: res.sample(describe(by[fam]))
     res.rule = ('one case = one message through a real middleware.Retry value; 1..6 messages share ONE wrapped handler, sequentially or concurrently with staggered '
-                'starts; configurations MaxRetries {-3,-1,0,1..8} x InitialInterval 0..8 ms (+odd ns) x MaxInterval 0..40 ms x Multiplier {1/2,1,5/4,3/2,2,9/4,3,4,..512} x '
+                'starts, or as handler middleware of a real Router with 2..5 messages in flight; configurations MaxRetries {-3,-1,0,1..8} x InitialInterval 0..8 ms (+odd ns) x MaxInterval 0..40 ms x Multiplier {1/2,1,5/4,3/2,2,9/4,3,4,..512} x '
                 'RandomizationFactor {0,1/4,1/2,1} x OnRetryHook/Logger set or nil; scripts fail^i then succeed (i = 0..MaxRetries) or fail forever, with 0..3 outputs also '
                 'next to errors; context cancelled by the handler at every attempt index (long and short next wait), by another goroutine in the middle of a wait, '
                 'MaxElapsedTime ending in a long wait or while a slow handler runs (Stop); non-trivial = at least one retry or an early give-up, distinct by '
